@@ -636,6 +636,13 @@ func c07Run(c *core.Ctx, id string, cell c07Cell) {
 		return // the read loop will close the channel as soon as it comes around: usability is not required
 	}
 	// consumed: channel must stay usable (unless the documented non-timeout net.Error close applied)
+	if cell.entry == "read-loop" {
+		// the read loop deals with the recovered panic on its own goroutine: after the exception handlers it either closes
+		// the channel (non-timeout net.Error rule) or goes back into the transport's Read - wait for one of the two
+		for dl := time.Now().Add(2 * time.Second); rig.Ch.IsActive() && rig.T.InRead() == 0 && time.Now().Before(dl); {
+			time.Sleep(20 * time.Microsecond)
+		}
+	}
 	if cell.val == 4 && !rig.Ch.IsActive() {
 		c.Count("closed_by_nontimeout_neterror_rule", 1)
 		return
